@@ -91,6 +91,38 @@ func runC14rt(w *World, rng *rand.Rand, n int) {
 				w.rec.emit(M{"ev": "safepoint_read", "sp": cts(sp), "ts": cts(ts), "get": errClass(gerr), "batchget": errClass(berr), "scan": errClass(serr)})
 			}
 			rd.store.UpdateTxnSafePointCache(0, time.Now())
+			// the store learns a newer safe point while a scan is under way: the batches fetched afterwards are reads below it
+			if tx, berr := rd.store.Begin(); berr == nil {
+				for k := 1; k <= 4; k++ {
+					_ = tx.Set(keyOf(k), valOf(40+k))
+				}
+				_ = tx.Commit(context.Background())
+			}
+			ts, _ := rd.store.CurrentTimestamp("global")
+			snap := rd.store.GetSnapshot(ts)
+			snap.SetScanBatchSize(2)
+			it, serr := snap.Iter(keyOf(1), nil)
+			first, later, fetches := 0, 0, 0
+			if serr == nil {
+				if it.Valid() {
+					first++
+					serr = it.Next()
+				}
+				rd.store.UpdateTxnSafePointCache(ts+5, time.Now())
+				w.schedMu.Lock()
+				n0 := rd.gate.n
+				w.schedMu.Unlock()
+				for serr == nil && it.Valid() {
+					later++
+					serr = it.Next()
+				}
+				it.Close()
+				w.schedMu.Lock()
+				fetches = int(rd.gate.n - n0)
+				w.schedMu.Unlock()
+			}
+			w.rec.emit(M{"ev": "safepoint_midscan", "sp": cts(ts + 5), "ts": cts(ts), "scan": errClass(serr), "first": first, "later": later, "fetches": fetches})
+			rd.store.UpdateTxnSafePointCache(0, time.Now())
 		}
 		w.recoverAll(r)
 	}
